@@ -306,7 +306,7 @@ def matches_spec(model, module, name, spec_src, prune=True):
     d = first_diff(t, s)
     if d is None:
         return False, 'normal forms differ'
-    path, a, b = d
+    a, b, path = d
     return False, 'repo: %s  |  spec: %s' % (show(a)[:150], show(b)[:150])
 
 
@@ -367,7 +367,7 @@ def fi_matches_spec(model, fi, spec_src, prune=True, cell_shape=None):
     d = first_diff(t, s)
     if d is None:
         return False, 'normal forms differ'
-    path, a, b = d
+    a, b, path = d
     return False, 'repo: %s  |  spec: %s' % (show(a)[:150], show(b)[:150])
 
 
